@@ -1,4 +1,4 @@
-\* thorough exhaustive check: as _mc with the full 77-answer domain for re-fetches too and waits of 0..3 ticks (4.7 M distinct states, ~2 min)
+\* thorough exhaustive check: as _mc with the full 77-answer domain for re-fetches too and waits of 0..3 ticks (5,291,564 distinct states, ~2 min idle)
 SPECIFICATION Spec
 CONSTANTS
   Policies <- AllPolicies
@@ -10,6 +10,6 @@ CONSTANTS
   MaxNow = 18
   HttpReqs <- AllHttp
 VIEW View
-INVARIANTS TypeOK PropertyLevel RefetchIffExpired CodeStricter NeverOnExpiry
+INVARIANTS TypeOK PropertyLevel PlainHttpServed RefetchIffExpired CodeStricter NeverOnExpiry
 PROPERTIES PolicyFixed
 CHECK_DEADLOCK FALSE
